@@ -13,6 +13,8 @@ PROBES = [
     "OBJECT = o\n a = 1\nEND_OBJECT = o\nEND\n", "GROUP = g\n a = 1\nEND_OBJECT = g\nEND\n", "GROUP = g\n a = 1\nEND_GROUP = h\nEND\n",
     "BEGIN_GROUP = g\n a = 1\nEND_GROUP = g\nEND\n", "BEGIN_OBJECT = o\n a = 1\nEND_OBJECT\nEND\n", "Begin_Group = g\n a = 1\nEnd_Group\nEnd\n",
     "GROUP = g\nEND_GROUP\nEND\n", "GROUP = g\n GROUP = g\n  a = 1\n END_GROUP = g\nEND_GROUP = g\nEND\n",
+    "GROUP = g\n a = 1\nEND_GROUP \u0001\nb = 2\nEND\n", "OBJECT = o\n a = 1\nEND_OBJECT \u20ac\nb = 2\nEND\n", "GROUP = g\n a = 1\nEND_GROUP = \u0001g\nb = 2\nEND\n",
+    "GROUP =\n", "GROUP = /* c */\n", "a = 1\nGROUP = ", "GROUP = g\n a = 1\nEND_GROUP =", "OBJECT = o\nEND_OBJECT = /* c */\n",
     # collections
     "a = (1, 2, )\nEND\n", "a = {RED,}\nEND\n", "a = ((0, 0), )\nEND\n", "a = (,)\nEND\n", "a = (1,,2)\nEND\n", "a = (1, 2, }\nEND\n",
     "a = (1 2)\nEND\n", "a = ()\nb = {}\nEND\n", "a = (((1)))\nEND\n", "a = {{1}}\nEND\n", "a = ({1}, (2))\nEND\n",
